@@ -15,6 +15,11 @@ session), so a row is identified by its integer and "skipped / repeated" is dire
 entry that could be stored as a row at all carries the id -(100+j) (a too-wide integer) or -2.
 "schema": "relation" builds the frame over a RelationSchema (one INTEGER column), so append
 starts with schema validation and takes dict entries.
+Optional "shape" (default "int1") picks what the rows ARE - SHAPES: rows of no columns, falsy cells (0, False, "", 0.0,
+None, -0.0, b""), equal-but-different cells (1, True, 1.0, Decimal(1)), all rows identical, all-None two-column rows,
+two-column rows - and optional "ctor" how the frame is built: "rows" (default), "dicts" (DataFrame(dictionaries=[...]),
+rows become Row instances), "select" (lazy: a projection of a two-column frame onto the shape's columns).  A row is
+then identified by the integer _rid gives its VALUE, so rows may share an id (the model is over arbitrary lists).
 Observed: one entry per op: ["row", id|None] | ["rows", [ids]] | ["unit"] | ["raise", exc]
   | ["append", returned_normally, length of the row store right after the call | None, exc|None]
   | ["count", n] | ["seen", [ids]]       what a read-only observer reported (row count / the rows it showed)
@@ -22,6 +27,8 @@ Observed: one entry per op: ["row", id|None] | ["rows", [ids]] | ["unit"] | ["ra
   | ["bad"]                              no such frame
 (the store length / the rows of a returned frame are read off the frame's list without calling any DataFrame method)."""
 import itertools
+import math
+from decimal import Decimal
 
 from vlib import coqlit as L
 
@@ -116,12 +123,60 @@ def _bad_id(kind, j):
     return -(100 + j) if kind in WIDE_KINDS else -2
 
 
+def _cell_code(v):
+    if v is None:
+        return -3
+    if isinstance(v, bool):
+        return -5 if v else -4
+    if isinstance(v, str) and v == "":
+        return -6
+    if isinstance(v, float):
+        if v == 0.0:
+            return -8 if math.copysign(1.0, v) < 0 else -7
+        if v == 1.0:
+            return -10
+    if isinstance(v, bytes) and v == b"":
+        return -9
+    if isinstance(v, Decimal) and v == 1:
+        return -11
+    return -2
+
+
 def _rid(row):
-    """the integer identifying a delivered row (rejected entries that leaked into the frame included)"""
+    """the integer identifying a delivered row by its value (rejected entries that leaked into the frame included)"""
+    if len(row) == 0:
+        return -20
     v = row[0]
     if isinstance(v, int) and not isinstance(v, bool):
         return -(100 + (v - WIDE)) if v >= WIDE else v
-    return -2
+    return _cell_code(v)
+
+
+FALSY = [0, False, "", 0.0, None, -0.0, b""]
+EQUAL = [1, True, 1.0, Decimal(1)]
+# shape -> (column names, row number i -> row)
+SHAPES = {
+    "int1": (["a"], lambda i: (i,)),
+    "empty0": ([], lambda i: ()),
+    "falsy1": (["a"], lambda i: (FALSY[i % len(FALSY)],)),
+    "equal1": (["a"], lambda i: (EQUAL[i % len(EQUAL)],)),
+    "dup1": (["a"], lambda i: (7,)),
+    "none2": (["a", "b"], lambda i: (None, None)),
+    "wide2": (["a", "b"], lambda i: (i, str(i))),
+}
+
+
+def _shape(case):
+    return case.get("shape") or "int1"
+
+
+def _canon(shape, i):
+    """the id of row number i of a frame of this shape (rows of one frame may share an id)"""
+    return _rid(SHAPES[shape][1](i))
+
+
+def _canon_rows(case):
+    return [_canon(_shape(case), i) for i in range(case["n"])]
 
 
 def _schema_kind(case):
@@ -153,9 +208,20 @@ def OBS_ARGS(n):
     }
 
 
-def _derive_args(n):
+# observers that neither address a column by position / name nor need one type per column: usable on every shape
+SAFE_OBS = ["rowcount", "len", "shape", "iter", "slice", "display", "str", "head", "tail", "row", "markdown", "nbytes", "query"]
+SAFE_ARGS = ["rowcount", "len", "shape", "iter", "slice", "head", "tail", "row_at", "to_batches", "query", "display", "str",
+             "nbytes", "description", "hash", "repr"]
+SAFE_DERIVERS = ["slice", "head", "tail", "query"]
+# (shape, ctor) of the materialised / of the lazily backed frames enumerated beside the default one
+EAGER_SHAPES = [("empty0", "rows"), ("empty0", "dicts"), ("falsy1", "rows"), ("equal1", "dicts"), ("dup1", "rows"),
+                ("none2", "rows"), ("wide2", "dicts")]
+LAZY_SHAPES = [("empty0", "rows"), ("empty0", "select"), ("int1", "select"), ("falsy1", "rows"), ("dup1", "rows")]
+
+
+def _derive_args(n, shape="int1"):
     a = OBS_ARGS(n)
-    return [(name, args) for name in DERIVERS for args in a[name]]
+    return [(name, args) for name in (DERIVERS if shape == "int1" else SAFE_DERIVERS) for args in a[name]]
 
 
 def _ids(frame_or_rows):
@@ -366,9 +432,20 @@ def observe(case):
     from orso.dataframe import DataFrame
 
     n = case["n"]
-    rows = [(i,) for i in range(n)]
+    shape = _shape(case)
+    names, mkrow = SHAPES[shape]
+    rows = [mkrow(i) for i in range(n)]
     rel = _schema_kind(case) == "relation"
-    if rel:
+    ctor = case.get("ctor") or "rows"
+    if ctor == "select":
+        # a projection of a two-column frame onto the shape's columns: lazily backed by design
+        wide = DataFrame(rows=[(i, str(i)) for i in range(n)], schema=["a", "b"])
+        df = wide.select(list(names))
+    elif ctor == "dicts":
+        df = DataFrame(dictionaries=[dict(zip(names, r)) for r in rows])
+    elif shape != "int1":
+        df = DataFrame(rows=(r for r in rows), schema=list(names)) if case["lazy"] else DataFrame(rows=list(rows), schema=list(names))
+    elif rel:
         from orso.schema import FlatColumn, RelationSchema
         from orso.types import OrsoTypes
 
@@ -394,10 +471,15 @@ def observe(case):
         df = frames[fi]
         if op[0] in ("append", "append_bad"):
             if op[0] == "append":
-                entry = {"a": 1000 + appended} if rel else (1000 + appended,)
+                entry = {"a": 1000 + appended} if rel else mkrow(1000 + appended)
                 appended += 1
             else:
-                entry = _bad_entry(op[1], bad)
+                kind = op[1]
+                if kind == "dict_wide" and (shape == "empty0" or (ctor == "dicts" and n == 0)):
+                    # the frame has no columns: a dict entry is projected onto them, so {"a": 2**64} is acceptable
+                    # there - the entry that cannot be sized is the tuple
+                    kind = "wide_int"
+                entry = _bad_entry(kind, bad)
                 bad += 1
             try:
                 df.append(entry)
@@ -444,7 +526,7 @@ def observe(case):
 def oracle(case, outs):
     """The property, read literally, evaluated on what the implementation returned.  Every frame of a session is a
     frame of its own: its fetch calls are judged against ITS rows and ITS history only."""
-    frames = [{"rows": list(range(case["n"])), "store": list(range(case["n"])), "pos": 0, "asz": 100, "dead": False,
+    frames = [{"rows": _canon_rows(case), "store": _canon_rows(case), "pos": 0, "asz": 100, "dead": False,
                "lazy": case["lazy"], "judged": True}]
     appended = 0
     bad = 0
@@ -454,7 +536,7 @@ def oracle(case, outs):
         where = f"op {i} {wop}"
         entry_id = None
         if k == "append":
-            entry_id = 1000 + appended
+            entry_id = _canon(_shape(case), 1000 + appended)
             appended += 1
         elif k == "append_bad":
             entry_id = _bad_id(op[1], bad)
@@ -572,7 +654,7 @@ def _coq_op(op, ctr):
         return "ObserveMat" if v is None else "(ObserveView %s)" % _coq_view(v)
     if k == "append":
         ctr["good"] += 1
-        return "(Append %s)" % L.Z(1000 + ctr["good"] - 1)
+        return "(Append %s)" % L.Z(_canon(ctr["shape"], 1000 + ctr["good"] - 1))
     if k == "append_bad":
         ctr["bad"] += 1
         return "(AppendBad %s)" % L.Z(_bad_id(op[1], ctr["bad"] - 1))
@@ -609,8 +691,8 @@ def to_coq(case, outs):
         op = _unwrap(wop)[1]
         if op[0] == "obs" and len(op) > 2 and op[1] == "row_at" and o[0] == "raise":
             return None   # row(i) with no such row: outside the model
-    ctr = {"good": 0, "bad": 0}
-    base = "(%s : list Z)" % L.lst(L.Z(i) for i in range(case["n"]))
+    ctr = {"good": 0, "bad": 0, "shape": _shape(case)}
+    base = "(%s : list Z)" % L.lst(L.Z(i) for i in _canon_rows(case))
     if not _is_session(case):
         ops = [_coq_op(op, ctr) for op in case["ops"]]
         cobs = [_coq_out(o) for o in outs]
@@ -642,13 +724,14 @@ def nontrivial_key(case, outs):
     delivered = any((o[0] == "row" and o[1] is not None) or (o[0] == "rows" and o[1]) for o in outs)
     if not delivered:
         return None
-    return repr((case["lazy"], case.get("seq"), case.get("schema"), case["n"], case["ops"]))
+    return repr((case["lazy"], case.get("seq"), case.get("schema"), case.get("shape"), case.get("ctor"), case["n"], case["ops"]))
 
 
 def classify(case, outs):
     yield "lazy" if case["lazy"] else ("eager-tuple" if case.get("seq") == "tuple" else "eager")
     if case.get("schema") == "relation":
         yield "relation-schema"
+    yield "shape:" + _shape(case) + ("/" + case["ctor"] if case.get("ctor") else "")
     if _is_session(case):
         yield "session"
     yield "rows=%d" % min(case["n"], 4) + ("+" if case["n"] > 4 else "")
@@ -667,7 +750,7 @@ def classify(case, outs):
         if op[0] == "derive" and o[0] == "derived":
             derived += 1
             yield "derive:" + op[1]
-            if o[1] == list(range(case["n"])) and case["n"] > 0:
+            if o[1] == _canon_rows(case) and case["n"] > 0:
                 yield "derive-covers-whole-frame"
         if fi != 0 and op[0] in ("fetchone", "fetchmany", "fetchall"):
             yield "fetch-on-derived-frame"
@@ -711,9 +794,24 @@ def corpus():
                     yield c
 
 
-def _obs_variants(n):
+def _obs_variants(n, shape="int1"):
     a = OBS_ARGS(n)
-    return [(name, args) for name in sorted(a) for args in a[name]]
+    return [(name, args) for name in (sorted(a) if shape == "int1" else SAFE_ARGS) for args in a[name]]
+
+
+def _shaped(c, shape, ctor):
+    if shape == "empty0":
+        # a dict entry is projected onto the frame's (zero) columns: {"a": 2**64} is an acceptable entry there
+        def fix(o):
+            if o[0] == "on":
+                return ["on", o[1], fix(o[2])]
+            return ["append_bad", "wide_int"] if o == ["append_bad", "dict_wide"] else o
+        c["ops"] = [fix(o) for o in c["ops"]]
+    if shape != "int1" or ctor != "rows":
+        c["shape"] = shape
+        if ctor != "rows":
+            c["ctor"] = ctor
+    return c
 
 
 def _session_scripts(n):
@@ -773,22 +871,48 @@ def exhaustive(tier):
                     for script in _session_scripts(n):
                         yield {"lazy": False, "n": n, "ops": [["fetchone"]] * pre + [["derive", name, args]] + script}
 
+        # what the rows ARE must not matter: rows of no columns, falsy / None / equal-but-different cells, identical
+        # rows, Row instances built from dicts - all histories to depth 2 (3 in the thorough tier)
+        sdepth = 2 if tier == "quick" else 3
+        scyc = itertools.cycle(SAFE_OBS)
+        for shape, ctor in EAGER_SHAPES:
+            for n in range(0, 4):
+                for d in range(1, sdepth + 1):
+                    alpha = [o for o in _alphabet(n, scyc, bad) if o != ["fetchmany", 2]]
+                    for hist in itertools.product(alpha, repeat=d):
+                        yield _shaped({"lazy": False, "n": n, "ops": [list(o) for o in hist]}, shape, ctor)
+            # ... and a frame handed back by slice / head / tail / query keeps its own cursor there too
+            for name, args in (("slice", []), ("head", [2]), ("tail", [5]), ("query", [])):
+                for script in _session_scripts(3):
+                    yield _shaped({"lazy": False, "n": 3, "ops": [["fetchone"], ["derive", name, args]] + script}, shape, ctor)
+        # ... and lazily backed frames of these shapes read only through the cursor (select() projections included)
+        for shape, ctor in LAZY_SHAPES:
+            for n in range(0, 4):
+                for d in range(1, sdepth + 1):
+                    alpha = [o for o in _alphabet(n, itertools.cycle(PURE_OBS), bad)
+                             if o != ["fetchmany", 2] and o[0] != "append" and o != ["obs", "column_names"]]
+                    for hist in itertools.product(alpha, repeat=d):
+                        yield _shaped({"lazy": True, "n": n, "ops": [list(o) for o in hist]}, shape, ctor)
+
     return it(), (f"all eager histories of depth <= {depth} over the 12-letter alphabet (fetches, arraysize, observers, append, failing append) "
                   f"on frames of 0..3 rows (list-backed; tuple-backed without append calls to depth 2; RelationSchema-backed to depth {rdepth}); "
                   "every observer x every argument value of its pool x every cursor position; every frame-returning call "
-                  "(slice/head/tail over their argument pools, query, distinct) x cursor position 0/1 x 4 session scripts using the frame handed back")
+                  "(slice/head/tail over their argument pools, query, distinct) x cursor position 0/1 x 4 session scripts using the frame handed back; "
+                  f"all histories of depth <= {2 if tier == 'quick' else 3} on frames of 0..3 rows of every other row shape "
+                  "(no columns; falsy / None / equal-but-different cells; identical rows; two columns; built from rows or from dicts) "
+                  "and on lazily backed frames of those shapes (generator, select() projection)")
 
 
-def _random_obs(rng, n, lazy):
+def _random_obs(rng, n, lazy, shape="int1"):
     if lazy:
         return ["obs", rng.choice(PURE_OBS)]
     if rng.random() < 0.5:
-        return ["obs", rng.choice(PURE_OBS + MAT_OBS)]
-    name, args = rng.choice(_obs_variants(n))
+        return ["obs", rng.choice(PURE_OBS + (MAT_OBS if shape == "int1" else SAFE_OBS))]
+    name, args = rng.choice(_obs_variants(n, shape))
     return ["obs", name, args]
 
 
-def _random_case(rng, lazy, schema="names"):
+def _random_case(rng, lazy, schema="names", shape="int1", ctor="rows"):
     n = rng.choice([0, 1, 2, 3, 5, 8, 12])
     ops = []
     for _ in range(rng.randint(1, 14)):
@@ -802,7 +926,7 @@ def _random_case(rng, lazy, schema="names"):
         elif r < 0.68:
             ops.append(["arraysize", rng.choice([0, 1, 2, 3, 7, 100])])
         elif r < 0.87:
-            ops.append(_random_obs(rng, n, lazy))
+            ops.append(_random_obs(rng, n, lazy, shape))
         elif r < 0.94:
             ops.append(["append_bad", rng.choice(CHEAP_BAD[schema])])
         elif not lazy or r < 0.96:
@@ -810,7 +934,16 @@ def _random_case(rng, lazy, schema="names"):
     c = {"lazy": lazy, "n": n, "ops": ops}
     if schema == "relation":
         c["schema"] = "relation"
-    return c
+    return _shaped(c, shape, ctor)
+
+
+def _shape_case(rng):
+    """a frame whose rows are not distinct one-column integer rows"""
+    if rng.random() < 0.35:
+        shape, ctor = rng.choice(LAZY_SHAPES)
+        return _random_case(rng, lazy=True, shape=shape, ctor=ctor)
+    shape, ctor = rng.choice(EAGER_SHAPES)
+    return _random_case(rng, lazy=False, shape=shape, ctor=ctor)
 
 
 def _failed_append_case(rng):
@@ -848,6 +981,9 @@ def _session_case(rng):
     """several frames alive at once: frames derived from frame 0 (and from derived frames), calls on all of them interleaved"""
     n = rng.choice([1, 2, 3, 4, 6])
     schema = rng.choice(["names", "names", "names", "relation"])
+    shape, ctor = ("int1", "rows")
+    if schema == "names" and rng.random() < 0.3:
+        shape, ctor = rng.choice(EAGER_SHAPES)
     sizes = [n]          # a guess of each frame's size, for picking arguments only
     ops = []
     for _ in range(rng.randint(3, 16)):
@@ -859,10 +995,10 @@ def _session_case(rng):
                 # bounds that reach the whole frame
                 name, args = rng.choice([("slice", []), ("slice", [0, m]), ("slice", [0, m + 1]), ("head", [m]), ("head", [m + 3]),
                                          ("tail", [m]), ("tail", [m + 2]), ("head", []), ("tail", []), ("slice", [-m - 1, None]),
-                                         ("query", []), ("distinct", [])])
+                                         ("query", [])] + ([("distinct", [])] if shape == "int1" else []))
                 sizes.append(m)
             else:
-                name, args = rng.choice(_derive_args(m))
+                name, args = rng.choice(_derive_args(m, shape))
                 sizes.append(max(0, m - 1))
             op = ["derive", name, args]
         elif r < 0.45:
@@ -872,7 +1008,7 @@ def _session_case(rng):
         elif r < 0.72:
             op = ["fetchall"]
         elif r < 0.84:
-            op = _random_obs(rng, m, False)
+            op = _random_obs(rng, m, False, shape)
         elif r < 0.9:
             op = ["append_bad", rng.choice(CHEAP_BAD[schema])]
         elif r < 0.96:
@@ -884,7 +1020,7 @@ def _session_case(rng):
     c = {"lazy": False, "n": n, "ops": ops}
     if schema == "relation":
         c["schema"] = "relation"
-    return c
+    return _shaped(c, shape, ctor)
 
 
 def _lazy_view_case(rng):
@@ -918,10 +1054,12 @@ def _tuple_case(rng):
 
 
 def generate(rng, tier):
-    count = 960 if tier == "quick" else 19200
+    count = 1080 if tier == "quick" else 21600
     for i in range(count):
-        m = i % 8
-        if m == 7:
+        m = i % 9
+        if m == 8:
+            yield _shape_case(rng)
+        elif m == 7:
             yield _lazy_view_case(rng) if i % 16 == 15 else _session_case(rng)
         elif m == 6:
             yield _session_case(rng)
@@ -938,7 +1076,9 @@ def generate(rng, tier):
 def search(rng):
     while True:
         r = rng.random()
-        if r < 0.2:
+        if r < 0.15:
+            yield _shape_case(rng)
+        elif r < 0.25:
             yield _random_case(rng, lazy=True)
         elif r < 0.35:
             yield _failed_append_case(rng)
